@@ -221,7 +221,7 @@ def explore_class(task):
         nxt = []
         for hist in frontier:
             w0 = S.build(env, hist)
-            ops = S.gen_ops(rec, w0, P)
+            ops = oracle.gen_ops(rec, w0, P) if hasattr(oracle, "gen_ops") else S.gen_ops(rec, w0, P)
             for op in ops:
                 judged = oracle.checked(op)
                 ctx, out, viols = run_transition(env, rec, hist, op, oracle, prop)
